@@ -101,7 +101,7 @@ let eval inp obs =
   let groups = split_on ";" inp in
   let header, ops = (match groups with hd :: tl -> hd, tl | [] -> failwith "empty") in
   let mode, fk, scale = (match header with
-    | [m; fk; sc] -> m, bytes_of_hex fk, n_of_tok sc | _ -> failwith "bad header") in
+    | m :: fk :: sc :: _ -> m, bytes_of_hex fk, n_of_tok sc | _ -> failwith "bad header") in
   let og = split_on ";" obs in
   let sect name = (match List.find_opt (fun g -> match g with x :: _ -> x = name | [] -> false) og with
     | Some (_ :: t) -> t | _ -> []) in
